@@ -135,6 +135,22 @@ let run_xorder (toks : string list) (cout : string list) : string =
                     | Some c0 -> if not (eq_up_to_sign c0 c) then fail "content in x%s depends on the order" (string_of_n x)))
               | _ -> fail "cpd: malformed group")
            | _ -> fail "cpd: malformed group") og
+       | "obs" ->
+         let vars = List.sort compare (List.map int_of_n (mp_vars a)) in
+         let r = List.length vars in
+         let linear = a <> [] && vars <> [] && List.for_all (fun (m, _) -> match m with [] -> true | [(_, e)] -> int_of_n e = 1 | _ -> false) a in
+         let rec lc_sgn o p = match top_var o p with
+           | None -> (match p with [] -> 0 | (_, c) :: _ -> sgn_of_z c)
+           | Some x -> lc_sgn o (mp_lc x p) in
+         let bits = String.init (1 lsl r) (fun mask -> if mask = (1 lsl r) - 1 then '1' else '0') in
+         List.iter (fun (o, g) ->
+           let deg = match top_var o a with None -> 0 | Some x -> int_of_n (mp_degree x a) in
+           let expected =
+             [tv o a; "c" ^ string_of_bool01 (vars = []); "z" ^ string_of_bool01 (a = []); "d" ^ string_of_int deg;
+              "l" ^ string_of_int (lc_sgn o a);
+              "v" ^ (if vars = [] then "-" else String.concat "" (List.map string_of_int vars));
+              "u" ^ string_of_bool01 (r <= 1); "n" ^ string_of_bool01 linear; "a" ^ bits] in
+           if g <> expected then fail "observers `%s`, expected `%s`" (String.concat " " g) (String.concat " " expected)) og
        | "se" ->
          let vl = List.map (fun x -> match value_of x with Some r -> (x, r) | None -> fail "unassigned variable") (mp_vars a) in
          let vl = List.filter (fun (_, r) -> match r with RQ _ -> true | _ -> false) vl
